@@ -296,3 +296,42 @@ contract("gherkin.ast_builder.AstBuilder.transform_node#Feature",
                                                    node._sub_items["ScenarioDefinition"], node._sub_items["Rule"],
                                                    self.id_generator._id_counter),
          serves=["C03", "C04", "C05", "C08", "C11", "C17"])
+
+
+# ---- TokenFormatterBuilder (the token listing of C18) ---------------------------------------------------------
+klass("TokenFormatterBuilder", fields=dict(_tokens=MutList(Val("Token"))), record=False)
+
+
+def fmt_item(item):
+    return itos(item["column"]) + ":" + item["text"]
+
+
+def fmt_token(token):
+    return ("(" + itos(token.location["line"]) + ":" + itos(token.location["column"]) + ")" + opt_val(token.matched_type) + ":"
+            + ((("(" + (opt_val(token.matched_keyword_type) if (not is_none(token.matched_keyword_type)
+                                                                and len(opt_val(token.matched_keyword_type)) > 0) else "")
+                 + ")" + opt_val(token.matched_keyword))
+                if (not is_none(token.matched_keyword) and len(opt_val(token.matched_keyword)) > 0) else ""))
+            + "/" + (opt_val(token.matched_text) if (not is_none(token.matched_text) and len(opt_val(token.matched_text)) > 0) else "")
+            + "/" + join_sep(",", [fmt_item(i) for i in token.matched_items]))
+
+
+contract("gherkin.token_formatter_builder.TokenFormatterBuilder._format_token",
+         args=dict(token="Token"), variants=[dict(token="Token"), dict(token="TokenEOF")], returns=Str,
+         requires=[lambda token: is_eof_token(token) or (not is_none(token.matched_type) and "column" in token.location)],
+         ensures=[
+             clause("eof", lambda token, result: implies(is_eof_token(token), result == "EOF"), serves=["C18"]),
+             clause("listing", lambda token, result: implies(not is_eof_token(token), result == fmt_token(token)),
+                    serves=["C18", "C04"]),
+         ])
+contract("gherkin.token_formatter_builder.TokenFormatterBuilder.build",
+         args=dict(self="TokenFormatterBuilder", token="Token"), returns=NoneT, modifies=["self._tokens"],
+         ensures=[clause("appended", lambda self, token: self._tokens == old(self._tokens) + [token], serves=["C18"])])
+contract("gherkin.token_formatter_builder.TokenFormatterBuilder.reset",
+         args=dict(self="TokenFormatterBuilder"), returns=NoneT, modifies=["self._tokens"],
+         ensures=[clause("emptied", lambda self: len(self._tokens) == 0, serves=["C18", "C15"])])
+
+
+# TokenFormatterBuilder.get_result ("\n".join of _format_token over the received tokens) is a comprehension over a
+# contract call with a per-element precondition: outside the generator's subset; it is covered by the F comparison
+# of the token listings of the acceptance corpus (finite.f_corpus) only.
